@@ -120,7 +120,14 @@ def swap(
     if dim is None:
         dim = np.array([[round_dim[0], round_dim[0]], [round_dim[1], round_dim[1]]])
 
-    if isinstance(dim, int):
+    if isinstance(dim, int) and 1 in rho_dims:
+        # A vector: the scalar is the dimension of the first subsystem, the second one is the rest of its length.
+        vec_len = max(rho_dims)
+        if vec_len % dim != 0:
+            raise ValueError("InvalidDim: The value of `dim` must evenly divide the length of the vector `rho`.")
+        dim = np.array([dim, vec_len // dim])
+        num_sys = 2
+    elif isinstance(dim, int):
         dim = np.array([[dim, rho_dims[0] / dim], [dim, rho_dims[1] / dim]])
         if (
             np.abs(dim[0, 1] - np.round(dim[0, 1])) + np.abs(dim[1, 1] - np.round(dim[1, 1]))
